@@ -426,6 +426,52 @@ static void rle_unpack(const uint8_t *src, size_t clen, uint8_t *dst, size_t n)
         if (o != n) mcx_fatal("snapshot unpack size mismatch");
 }
 
+/* ---- crash reporting: a fatal signal inside a transition is a violation of memory safety (C03) with a replayable path ---- */
+#include <signal.h>
+#include <sys/time.h>
+static struct frame *g_fr; static int *g_depth; static const struct mcx_opts *g_opts; static struct mcx_stats *g_st;
+const char *mcx_crash_prop = "C03";
+
+static uint64_t wd_last; static int wd_strikes;
+static void on_crash(int sig);
+static void on_watchdog(int sig)
+{
+        (void)sig;
+        if (!g_st) return;
+        if (g_st->transitions == wd_last) { if (++wd_strikes >= 3) on_crash(SIGALRM); }
+        else { wd_strikes = 0; wd_last = g_st->transitions; }
+}
+
+static void on_crash(int sig)
+{
+        signal(sig, SIG_DFL);
+        if (!g_fr || !g_depth || !g_opts) _exit(2);
+        int n = *g_depth;
+        const char *dir = g_opts->replay_dir ? g_opts->replay_dir : "replays";
+        mkdir(dir, 0777);
+        uint64_t hh = 1469598103934665603ULL;
+        for (int i = 0; i < n; i++) { hh = (hh ^ (uint64_t)g_fr[i].action) * 1099511628211ULL; for (int k = 0; k < g_fr[i].ch.len; k++) hh = (hh ^ g_fr[i].ch.val[k]) * 1099511628211ULL; }
+        char path[1024], msg[256];
+        snprintf(path, sizeof path, "%s/%s_%s_crash_%016llx.replay", dir, mcx_crash_prop, g_opts->tag ? g_opts->tag : "x", (unsigned long long)hh);
+        snprintf(msg, sizeof msg, "C03: fatal signal %d (%s) while executing the last step of this path on the real code", sig, sig == SIGSEGV ? "SIGSEGV" : sig == SIGABRT ? "SIGABRT (assertion or abort)" : sig == SIGBUS ? "SIGBUS" : sig == SIGFPE ? "SIGFPE" : sig == SIGALRM ? "watchdog: the call did not return within 15 s" : "signal");
+        FILE *f = fopen(path, "w");
+        if (f) {
+                fprintf(f, "# mcx replay file (crash)\n");
+                if (g_opts->header) fprintf(f, "%s", g_opts->header);
+                fprintf(f, "prop %s\nmsg %s\nsteps %d\n", mcx_crash_prop, msg, n);
+                for (int i = 0; i < n; i++) {
+                        fprintf(f, "%d %d", g_fr[i].action, g_fr[i].ch.len);
+                        for (int k = 0; k < g_fr[i].ch.len; k++) fprintf(f, " %d", g_fr[i].ch.val[k]);
+                        fprintf(f, " |\n");
+                }
+                fclose(f);
+        }
+        printf("{\"tag\":\"%s\",\"states\":%llu,\"transitions\":%llu,\"exhaustive\":false,\"capped\":0,\"wall_s\":0,\"violations\":1,\"replay\":\"%s\",\"msg\":\"%s\"}\n",
+               g_opts->tag ? g_opts->tag : "x", (unsigned long long)(g_st ? g_st->states : 1), (unsigned long long)(g_st ? g_st->transitions : 1), path, msg);
+        fflush(stdout);
+        _exit(1);
+}
+
 int mcx_explore(const struct mcx_model *m, const struct mcx_opts *o, struct mcx_stats *st)
 {
         double t0 = mcx_now();
@@ -443,6 +489,9 @@ int mcx_explore(const struct mcx_model *m, const struct mcx_opts *o, struct mcx_
         vt_init(1 << 16);
         int depth = 0;
         int nviol = 0;
+        g_fr = fr; g_depth = &depth; g_opts = o; g_st = st;
+        signal(SIGSEGV, on_crash); signal(SIGBUS, on_crash); signal(SIGFPE, on_crash); signal(SIGABRT, on_crash); signal(SIGILL, on_crash);
+        { struct itimerval itv = {{5, 0}, {5, 0}}; wd_last = 0; wd_strikes = 0; signal(SIGALRM, on_watchdog); setitimer(ITIMER_REAL, &itv, NULL); }
 
 #define FRAME(i) (&fr[i])
 #define PUSH_SNAP(f) do { \
@@ -531,6 +580,7 @@ int mcx_explore(const struct mcx_model *m, const struct mcx_opts *o, struct mcx_
                         cap *= 2;
                         fr = realloc(fr, cap * sizeof *fr);
                         if (!fr) mcx_fatal("oom stack");
+                        g_fr = fr;
                 }
                 struct frame *nf = FRAME(depth);
                 memset(nf, 0, sizeof *nf);
@@ -545,6 +595,9 @@ int mcx_explore(const struct mcx_model *m, const struct mcx_opts *o, struct mcx_
                                 mcx_fatal("on_new_state must not raise violations");
                 }
         }
+        { struct itimerval itv = {{0, 0}, {0, 0}}; setitimer(ITIMER_REAL, &itv, NULL); signal(SIGALRM, SIG_DFL); }
+        g_fr = NULL;
+        signal(SIGSEGV, SIG_DFL); signal(SIGBUS, SIG_DFL); signal(SIGFPE, SIG_DFL); signal(SIGABRT, SIG_DFL); signal(SIGILL, SIG_DFL);
         st->exhaustive = (depth == 0 && st->capped == 0 && nviol == 0);
         st->wall_s = mcx_now() - t0;
         free(fr); free(arena); free(scratch); free(packed);
